@@ -384,7 +384,10 @@ def simulate(run):
         """Closed as far as routing is concerned (the cool-down ends the open state)."""
         if ref["open"] and run.now - ref["opened_at"] >= cooldown:
             ref["open"] = False
-            ref["post_cooldown"] = True
+            # the count that opened the breaker may still stand - unless a call that had
+            # been sent through the gateway before it opened succeeded in the meantime
+            ref["post_cooldown"] = not ref.get("cleared_while_open", False)
+            ref["cleared_while_open"] = False
             ref["since"] = 0  # failures since the breaker closed again
         return not ref["open"]
 
@@ -396,6 +399,8 @@ def simulate(run):
     def ref_gateway_success():
         ref["strict"] = ref["lenient"] = ref["since"] = 0
         ref["post_cooldown"] = False
+        if ref["open"]:
+            ref["cleared_while_open"] = True
 
     def judge_state(last_was_gateway_failure):
         """Compare the real fail-safe with what the statement allows."""
@@ -411,6 +416,7 @@ def simulate(run):
                 run.violate("R2", "opened-before-threshold", "the fail-safe opened after %d consecutive gateway-side failures, threshold %d" % (ref["strict"], enter_after))
             ref["open"], ref["opened_at"] = True, run.now
             ref["post_cooldown"] = False
+            ref["cleared_while_open"] = False
             run.nontrivial = True
             return
         if real_open and was_open and expect_closed:
